@@ -279,6 +279,12 @@ class Gen:
             return ("int", self.boundary_int(*INT_RANGES[kafka]))
         if kafka == "float64":
             c = r.random()
+            if getattr(self, "allow_nan", False) and c < 0.35:
+                # non-finite patterns: infinities, quiet/signalling NaNs with payloads and sign
+                self.count("float:nonfinite")
+                return ("f64", r.choice([0x7FF0000000000000, 0xFFF0000000000000, 0x7FF8000000000000, 0xFFF8000000000000,
+                                         0x7FF8000000000001, 0x7FF0000000000001, 0xFFF80000DEADBEEF, 0x7FFFFFFFFFFFFFFF,
+                                         0x7FF4000000000000]))
             if c < 0.3:
                 bits = r.choice([0, 1 << 63, 0x3FF0000000000000, 0x7FEFFFFFFFFFFFFF, 1, 0x000FFFFFFFFFFFFF,
                                  0x0010000000000000, 0xFFEFFFFFFFFFFFFF, 0x400921FB54442D18])
@@ -342,6 +348,8 @@ class Gen:
             self.count("tagged:nondefault")
         if d.array:
             choices = ["empty", "one", "many"] + (["null"] if d.nullable else [])
+            if d.tag is not None and want_default is False:
+                choices = ["one", "many"]          # a non-default tagged array is non-empty
             c = r.choice(choices)
             self.count("array:" + c)
             if c == "null":
@@ -356,7 +364,7 @@ class Gen:
         if d.nullable:
             self.count("nullable:nonnull")
         v = self.item(d, depth)
-        if d.tag is not None and v == ("f64", 1 << 63):
+        if d.tag is not None and v[0] == "f64" and (v[1] == 1 << 63 or (v[1] >> 52) & 0x7FF == 0x7FF):
             v = ("f64", 0x3FF0000000000000)      # -0.0 == 0.0 in Python; tagged floats are outside wf_env (bit equality)
         return v
 
